@@ -273,7 +273,8 @@ def fault_worker(inner_defs, groups, extra):
     res = {"fails": [], "n_vec": 0, "n_groups": 0, "nontrivial": [], "samples": [], "n_checked": {},
            "outcomes": {}}
     work = tempfile.mkdtemp(prefix="vfpy-", dir=extra.get("scratch"))
-    signal.signal(signal.SIGALRM, _alarm)
+    from .common import watchdog_install, watchdog_start, watchdog_stop
+    watchdog_install(_alarm)
     tracemalloc.start()
     try:
         try:
@@ -292,7 +293,7 @@ def fault_worker(inner_defs, groups, extra):
                 fresh = P.new_message(env, mod, root)
                 tracemalloc.reset_peak()
                 base = tracemalloc.get_traced_memory()[0]
-                signal.alarm(5)
+                watchdog_start(5)
                 outcome = None
                 try:
                     try:
@@ -307,10 +308,10 @@ def fault_worker(inner_defs, groups, extra):
                         _fail(res, "total", env, g, vec, "decode(%s, %r) raised %s (not ProphyError)"
                               % (data.hex(), order, P.exc_text(e)), order=order, inp=data.hex(), fault=vec["fault"])
                 finally:
-                    signal.alarm(0)
+                    watchdog_stop()
                 peak = tracemalloc.get_traced_memory()[1] - base
                 if outcome == "timeout":
-                    _fail(res, "total", env, g, vec, "decode(%s, %r) did not terminate within 5 s"
+                    _fail(res, "total", env, g, vec, "decode(%s, %r) did not terminate within 5 s of CPU time"
                           % (data.hex(), order), order=order, inp=data.hex(), fault=vec["fault"])
                 if peak > 64 * len(data) + (1 << 20):
                     _fail(res, "total", env, g, vec, "decode(%s, %r) allocated %d bytes for %d input bytes"
